@@ -75,6 +75,13 @@ func (self *Transformer) infixExpr(node ast.AnalyzedInfixExpression, needsToBeSt
 			return variants
 		}
 
+		// The loop below adds the lhs `rhs` times: that is the product only for a non-negative count.
+		// Only a literal is known to be one here (after a swap of the operands in an earlier pass,
+		// the rhs can be any expression: `(2) * (-3)` would be unrolled to 0).
+		if lit, isLit := node.Rhs.(ast.AnalyzedIntLiteralExpression); !isLit || lit.Value < 0 {
+			return variants
+		}
+
 		// Method 1: automatic unrolling during runtime.
 		lhsInitIdent := pAst.NewSpannedIdent("lhs_init", node.Range)
 		resultIdent := pAst.NewSpannedIdent("mul_res", node.Range)
